@@ -64,7 +64,7 @@ theorem recordUndo_txs_none (s : State) (tx : Nat) (u : Undo) (k : Nat) :
 
 /-! ## the per-row bodies of update / delete and the undo fold leave the lock table alone -/
 
-theorem updateRow_locks (tx t : Nat) (upd : List (Nat × Int)) (s : State) (i : Nat) :
+theorem updateRow_locks (tx t : Nat) (upd : List (Nat × Val)) (s : State) (i : Nat) :
     (updateRow tx t upd s i).locks = s.locks ∧ (updateRow tx t upd s i).txLocks = s.txLocks ∧
     (updateRow tx t upd s i).now = s.now ∧ (updateRow tx t upd s i).lockTimeout = s.lockTimeout ∧
     (updateRow tx t upd s i).nextTx = s.nextTx := by
@@ -82,7 +82,7 @@ theorem deleteRow_locks (tx t : Nat) (s : State) (i : Nat) :
   · simp
   · split <;> simp
 
-theorem foldl_updateRow_locks (tx t : Nat) (upd : List (Nat × Int)) (rows : List Nat) (s : State) :
+theorem foldl_updateRow_locks (tx t : Nat) (upd : List (Nat × Val)) (rows : List Nat) (s : State) :
     (rows.foldl (updateRow tx t upd) s).locks = s.locks ∧ (rows.foldl (updateRow tx t upd) s).txLocks = s.txLocks ∧
     (rows.foldl (updateRow tx t upd) s).now = s.now ∧ (rows.foldl (updateRow tx t upd) s).lockTimeout = s.lockTimeout ∧
     (rows.foldl (updateRow tx t upd) s).nextTx = s.nextTx := by
@@ -234,7 +234,7 @@ theorem gone_rollback {s : State} {tx : Nat} (h : Gone s tx) (a : Nat) : Gone (r
   · simp only
     exact gone_setTx_none (gone_release (gone_foldl_applyUndo h _ 0) a) a
 
-theorem gone_txInsert {s : State} {tx : Nat} (h : Gone s tx) (a t : Nat) (vals : List Int) :
+theorem gone_txInsert {s : State} {tx : Nat} (h : Gone s tx) (a t : Nat) (vals : List Val) :
     Gone (txInsert s a t vals).1 tx := by
   unfold txInsert
   split
@@ -248,7 +248,7 @@ theorem gone_txInsert {s : State} {tx : Nat} (h : Gone s tx) (a t : Nat) (vals :
         · exact gone_recordUndo (gone_setTable h _ _) _ _
         · exact gone_recordUndo (gone_setTable (s := lockAll s _ _ _) h _ _) _ _
 
-theorem gone_updateRow {s : State} {tx : Nat} (h : Gone s tx) (a t : Nat) (upd : List (Nat × Int)) (i : Nat) :
+theorem gone_updateRow {s : State} {tx : Nat} (h : Gone s tx) (a t : Nat) (upd : List (Nat × Val)) (i : Nat) :
     Gone (updateRow a t upd s i) tx := by
   unfold updateRow
   split
@@ -275,7 +275,7 @@ theorem gone_foldl {f : State → Nat → State} (hf : ∀ s i tx, Gone s tx →
 theorem gone_lockAll {s : State} {tx : Nat} (h : Gone s tx) (a t : Nat) (rows : List Nat) :
     Gone (lockAll s a t rows) tx := h
 
-theorem gone_txUpdate {s : State} {tx : Nat} (h : Gone s tx) (a t : Nat) (c : Cond) (upd : List (Nat × Int)) :
+theorem gone_txUpdate {s : State} {tx : Nat} (h : Gone s tx) (a t : Nat) (c : Cond) (upd : List (Nat × Val)) :
     Gone (txUpdate s a t c upd).1 tx := by
   unfold txUpdate
   dsimp only
@@ -301,14 +301,14 @@ theorem gone_finishAuto {p : State × Res} {tx : Nat} (h : Gone p.1 tx) (a : Nat
   · exact gone_rollback h a
   · exact gone_commit h a
 
-theorem gone_insert {s : State} {tx : Nat} (h : Gone s tx) (t : Nat) (vals : List Int) : Gone (insert s t vals).1 tx := by
+theorem gone_insert {s : State} {tx : Nat} (h : Gone s tx) (t : Nat) (vals : List Val) : Gone (insert s t vals).1 tx := by
   unfold insert
   repeat' split
   all_goals first
     | exact h
     | exact gone_finishAuto (gone_txInsert (gone_begin h) _ _ _) _
 
-theorem gone_update {s : State} {tx : Nat} (h : Gone s tx) (t : Nat) (c : Cond) (upd : List (Nat × Int)) :
+theorem gone_update {s : State} {tx : Nat} (h : Gone s tx) (t : Nat) (c : Cond) (upd : List (Nat × Val)) :
     Gone (update s t c upd).1 tx := by
   unfold update
   repeat' split
@@ -353,7 +353,7 @@ theorem gone_step {s : State} {tx : Nat} (h : Gone s tx) (op : Op) : Gone (step 
   | insert t v => exact gone_insert h t v
   | update t c u => exact gone_update h t c u
   | delete t c => exact gone_delete h t c
-  | createTable n => exact h
+  | createTable n nl => exact h
   | createIndex t c =>
     simp only [step]; unfold createIndex
     split
@@ -471,7 +471,7 @@ theorem lockIdx_rollback {s : State} (h : LockIdx s) (a : Nat) : LockIdx (rollba
     have r := release_congr f.1 f.2.1 a
     exact lockIdx_congr (s := release s a) r.1 r.2 (lockIdx_release h a)
 
-theorem lockIdx_txInsert {s : State} (h : LockIdx s) (a t : Nat) (v : List Int) : LockIdx (txInsert s a t v).1 := by
+theorem lockIdx_txInsert {s : State} (h : LockIdx s) (a t : Nat) (v : List Val) : LockIdx (txInsert s a t v).1 := by
   unfold txInsert
   split
   · exact h
@@ -485,7 +485,7 @@ theorem lockIdx_txInsert {s : State} (h : LockIdx s) (a t : Nat) (v : List Int) 
         · rename_i T _ _ _
           exact lockIdx_congr (s := lockAll s a t [T.rows.length]) (by simp) (by simp) (lockIdx_lockAll h _ _ _)
 
-theorem lockIdx_txUpdate {s : State} (h : LockIdx s) (a t : Nat) (c : Cond) (u : List (Nat × Int)) :
+theorem lockIdx_txUpdate {s : State} (h : LockIdx s) (a t : Nat) (c : Cond) (u : List (Nat × Val)) :
     LockIdx (txUpdate s a t c u).1 := by
   unfold txUpdate
   dsimp only
@@ -538,7 +538,7 @@ theorem lockIdx_step {s : State} (h : LockIdx s) (op : Op) : LockIdx (step s op)
     all_goals first
       | exact h
       | exact lockIdx_finishAuto (lockIdx_txDelete (lockIdx_begin h) _ _ _) _
-  | createTable n => exact lockIdx_congr rfl rfl h
+  | createTable n nl => exact lockIdx_congr rfl rfl h
   | createIndex t c =>
     simp only [step]; unfold createIndex
     repeat' split
@@ -574,9 +574,23 @@ theorem release_clears {s : State} (h : LockIdx s) (tx : Nat) :
   obtain ⟨h1, h2⟩ := release_locks_some hl
   exact h2 ⟨he, he ▸ h t i l h1⟩
 
+/-! ## input validation -/
+
+theorem rowBad_false_len {T : Table} {vals : List Val} (h : rowBad T vals = false) : vals.length = T.ncols := by
+  unfold rowBad at h
+  rw [Bool.or_eq_false_iff] at h
+  simpa using h.1
+
+theorem updBad_false_cols {T : Table} {upd : List (Nat × Val)} (h : updBad T upd = false) : ∀ p ∈ upd, p.1 < T.ncols := by
+  unfold updBad at h
+  rw [Bool.or_eq_false_iff] at h
+  intro p hp
+  have := List.any_eq_false.1 h.1 p hp
+  simpa using this
+
 /-! ## shape of a successful update / delete -/
 
-theorem txUpdate_ok_form {s : State} {A t n : Nat} {cond : Cond} {upd : List (Nat × Int)} {T : Table}
+theorem txUpdate_ok_form {s : State} {A t n : Nat} {cond : Cond} {upd : List (Nat × Val)} {T : Table}
     (hT : s.tables t = some T) (hok : (txUpdate s A t cond upd).2 = .okN n) :
     lockBlocked s A t (matching T cond) = false ∧
     (txUpdate s A t cond upd).1 = (matching T cond).foldl (updateRow A t upd)
@@ -586,7 +600,7 @@ theorem txUpdate_ok_form {s : State} {A t n : Nat} {cond : Cond} {upd : List (Na
   | some e => simp [hg] at hok
   | none =>
     simp only [hg, hT] at hok ⊢
-    by_cases hc : upd.any (fun p => decide (p.1 ≥ T.ncols)) = true
+    by_cases hc : updBad T upd = true
     · simp [hc] at hok
     · by_cases hb : lockBlocked s A t (matching T cond) = true
       · simp [hc, hb] at hok
